@@ -37,10 +37,188 @@ def classify_card(M, fn, pr, t, turn_f, river_f):
     return ("other", P.show_key(s, 120))
 
 
+CARD_BIT = ("card::card::<impl std::convert::From<&card::card::Card> for u64>::from",
+            "card::card::<impl std::convert::From<card::card::Card> for u64>::from")
+
+
+def mask_field(M):
+    """index of the iterator's u64 field when the used cards are kept as a bit mask (no HashSet<Card> field), else None"""
+    tys = M.iter_field_tys()
+    if any(t.startswith(f"std::collections::HashSet<{evalmodel.CARD}") for t in tys):
+        return None
+    c = [i for i, t in enumerate(tys) if t == "u64"]
+    return c[0] if len(c) == 1 else None
+
+
+def rule_used_mask(ctx, M, fn, pr, turn_f, river_f, mask, rule):
+    """the used-card set kept as a u64 bit mask over `u64::from(&card)` (one distinct bit per card: C13.card-bits):
+    test = `mask & bits != 0`, record = `mask |= bits`, reset = `mask = 0`"""
+    mf = M.self_field(mask)
+
+    def cards_of(t):
+        """the card classes OR-ed together in a bits term, or None"""
+        s_ = P.strip(t)
+        while s_[0] == "cast":
+            s_ = P.strip(s_[2])
+        if s_[0] == "bin" and s_[1] == "BitOr":
+            a, b = cards_of(s_[2]), cards_of(s_[3])
+            return None if a is None or b is None else a + b
+        if s_[0] == "call" and s_[1] in CARD_BIT and len(s_[2]) == 1:
+            return [classify_card(M, fn, pr, s_[2][0], turn_f, river_f)]
+        return None
+    Q, Iset, hit_edges = {}, {}, {}
+    for b, lab, op, x, y in I.rel_edges(fn, pr, M.F):
+        if op not in ("Ne", "Eq"):
+            continue
+        for u, v in ((x, y), (y, x)):
+            us = P.strip(u)
+            if P.const_int(P.strip(v)) == 0 and us[0] == "bin" and us[1] == "BitAnd":
+                for m_, bits in ((us[2], us[3]), (us[3], us[2])):
+                    if P.strip(m_) == mf:
+                        cs = cards_of(bits)
+                        if cs is None:
+                            raise U(rule, f"the used-card mask is tested against something that is not a union of card bits: {P.show(bits)[:80]}", fn)
+                        for c in cs:
+                            Q.setdefault(c, []).append(b)
+                            if op == "Ne" and c[0] == "hole":
+                                hit_edges.setdefault(c[1], []).append((b, lab))
+    resets = []
+    for l, lst in pr.stores.items():
+        for (sb, si, pl, rv) in lst:
+            pj = pl["proj"]
+            if not (pl["l"] == 1 and len(pj) == 2 and pj[0] == "deref" and isinstance(pj[1], dict) and pj[1].get("f") == mask):
+                continue
+            v = pr.rvalue(rv) if "callterm" not in rv else None
+            vs = P.strip(v) if v else None
+            if vs and vs[0] == "bin" and vs[1] == "BitOr" and (P.strip(vs[2]) == mf or P.strip(vs[3]) == mf):
+                bits = vs[3] if P.strip(vs[2]) == mf else vs[2]
+                cs = cards_of(bits)
+                if cs is None:
+                    raise U(rule, f"something that is not a union of card bits is OR-ed into the used-card mask: {P.show(bits)[:80]}", fn)
+                for c in cs:
+                    Iset.setdefault(c, []).append(sb)
+            elif vs and P.const_int(vs) == 0:
+                resets.append(sb)
+            else:
+                raise U(rule, f"the used-card mask is assigned {P.show(v)[:80] if v else 'a call result'}: not `mask |= card bits` / `mask = 0`", fn)
+    if not Q and not Iset:
+        raise U(rule, "the used-card mask is neither queried nor filled in the deal function", fn)
+    ok = True
+    for c, bs in sorted(Q.items(), key=str):
+        if c not in Iset:
+            ok = False
+            what = f"hole card [{c[1]}] of the chosen combo" if c[0] == "hole" else str(c)
+            ctx.violation(rule, f"{fn.path}|checked-not-recorded|{c[0]}{c[1] if len(c) > 1 else ''}",
+                          f"{what} is tested against the used-card mask but never OR-ed into it: a card held by an earlier player cannot block "
+                          f"a later player's combo", fn=fn.path, file=fn.file, line=fn.blocks[bs[0]]["line"], construct="mask test without matching mask update")
+    for n in (("deck", "turn"), ("deck", "river")):
+        if n not in Iset:
+            ok = False
+            ctx.violation(rule, f"{fn.path}|not-recorded|{n[1]}", f"the {n[1]} card is not OR-ed into the used-card mask", fn=fn.path, file=fn.file, line=fn.line)
+    if not {0, 1} <= {c[1] for c in Q if c[0] == "hole"}:
+        ok = False
+        ctx.violation(rule, f"{fn.path}|hole-not-checked", "not both hole cards of a chosen combo are tested against the used-card mask",
+                      fn=fn.path, file=fn.file, line=fn.line)
+    fl = [lp for lp in L.for_loops(fn, pr) if M.is_self_field(lp.chain()[0], M.f_entries)]
+    for c, bs in sorted(Iset.items(), key=str):
+        if c[0] == "hole" and not any(L.in_every_iteration(fn, lp, b) for lp in fl for b in bs):
+            ok = False
+            ctx.violation(rule, f"{fn.path}|conditional-record|hole{c[1]}", f"hole card [{c[1]}] is OR-ed into the used-card mask only on some paths of "
+                          f"the player loop", fn=fn.path, file=fn.file, line=fn.blocks[bs[0]]["line"])
+        if c[0] == "deck" and fl and not any(fn.cfg.dominates(b, lp.header) for lp in fl for b in bs):
+            ok = False
+            ctx.violation(rule, f"{fn.path}|conditional-record|{c[1]}", f"the {c[1]} card is not recorded before the players' combos are tested",
+                          fn=fn.path, file=fn.file, line=fn.blocks[bs[0]]["line"])
+    # the mask starts every deal empty: it is reset on every path between two deals (a reset dominates every return that follows
+    # an update) or the updates of one deal are undone before returning
+    upd = [b for bs in Iset.values() for b in bs]
+    for rb in fn.cfg.return_blocks():
+        for ub in upd:
+            if rb in fn.cfg.reach_from(ub):
+                r_ = I.reachable_avoiding(fn, [], start=ub, removed_blocks=resets)
+                if rb in r_:
+                    ok = False
+                    ctx.violation(rule, f"{fn.path}|mask-not-reset", "the used-card mask is not reset to 0 on every path from a deal's updates to the "
+                                  "return: cards of one deal block the next", fn=fn.path, file=fn.file, line=fn.blocks[ub]["line"])
+                    break
+        if not ok:
+            break
+    ok = used_blocking(ctx, M, fn, pr, rule, hit_edges, fl) and ok
+    if ok:
+        ctx.ok(rule, {"fn": fn.path, "form": "u64 bit mask over u64::from(&card)", "checked": sorted(map(str, Q)), "recorded": sorted(map(str, Iset)),
+                      "blocking": f"each of {sorted(hit_edges)} -> no Showdown::new"}, sample=True)
+    ctx.assume("u64::from(&Card) is a distinct single bit per card (C13.card-bits)")
+
+
+def used_blocking(ctx, M, fn, pr, rule, hit_edges, fl):
+    """from the `already used` outcome of each hole-card test no path reaches Showdown::new except through `flag = false` of
+    the flag that guards the call; the flag is only ever cleared inside the player loop.  Returns False after reporting."""
+    ok = True
+    sd = [bi for bi, t in fn.calls() if bi in fn.cfg.reachable and I.callee_path(t).endswith("showdown::Showdown::new")]
+    flag_false, flag_bad = [], []
+    if sd:
+        # the flag: a named bool local switched on (possibly through a copy), whose true edges guard the call
+        def root_local(op):
+            pl = op.get("copy") or op.get("move")
+            if not pl or pl["proj"]:
+                return None
+            l = pl["l"]
+            for _ in range(6):
+                ds = pr.defs.get(l, [])
+                if len(ds) == 1 and ds[0][2] == "rv" and "use" in ds[0][3]:
+                    p2 = ds[0][3]["use"].get("copy") or ds[0][3]["use"].get("move")
+                    if p2 and not p2["proj"]:
+                        l = p2["l"]
+                        continue
+                break
+            return l
+        by_flag = {}
+        for b in sorted(fn.cfg.reachable):
+            t = fn.blocks[b]["term"]
+            if t["k"] == "switch" and t["ty"] == "bool":
+                l = root_local(t["on"])
+                if l is not None and fn.local_name(l) is not None and len(pr.defs.get(l, [])) >= 2:
+                    vals = [v for v, _ in t["arms"]]
+                    for lab, _tgt in fn.cfg.succ_edges[b]:
+                        if I.edge_truth(None, lab, vals):
+                            by_flag.setdefault(l, []).append((b, lab))
+        for fl_, t_edges in sorted(by_flag.items()):
+            if all(I.guarded_by(fn, s_, t_edges) for s_ in sd):
+                for (db, si, k, payload) in pr.defs[fl_]:
+                    v = pr.rvalue(payload) if k == "rv" else None
+                    in_loop = any(db in lp.body for lp in fl)
+                    if v == ("bool", False):
+                        flag_false.append(db)
+                    elif in_loop or v != ("bool", True):
+                        flag_bad.append(db)
+    if sd and hit_edges:
+        for k_, edges in sorted(hit_edges.items()):
+            for (b, lab) in edges:
+                tgt = [t_ for l_, t_ in fn.cfg.succ_edges[b] if l_ == lab][0]
+                r_ = I.reachable_avoiding(fn, [], start=tgt, removed_blocks=flag_false)
+                if any(s_ in r_ for s_ in sd):
+                    ok = False
+                    ctx.violation(rule, f"{fn.path}|collision-not-blocking|hole{k_}",
+                                  f"hole card [{k_}] being already used does not always block the deal: a path from that test "
+                                  f"reaches Showdown::new without clearing the flag that guards it (two players, or a player "
+                                  f"and the turn/river, can hold the same card)", fn=fn.path, file=fn.file, line=fn.blocks[b]["line"],
+                                  construct="used-card test -> Showdown::new")
+                    break
+        if flag_bad:
+            ok = False
+            ctx.violation(rule, f"{fn.path}|flag-reset", "the flag that guards Showdown::new is set to something other than `false` "
+                          "inside the player loop: an earlier collision is forgotten", fn=fn.path, file=fn.file,
+                          line=fn.blocks[flag_bad[0]]["line"], construct="deal-validity flag")
+    return ok
+
+
 def rule_used_set(ctx, M, fn, pr, turn_f, river_f):
     rule = "C02.R-used-set"
     ctx.rule(rule, "every card tested against the used-card set is also recorded in it; turn, river and both hole cards are recorded")
     Q, Iset = {}, {}
+    mask = mask_field(M)
+    if mask is not None:
+        return rule_used_mask(ctx, M, fn, pr, turn_f, river_f, mask, rule)
     for bi, t in fn.calls():
         if bi not in fn.cfg.reachable:
             continue
@@ -121,60 +299,7 @@ def rule_used_set(ctx, M, fn, pr, turn_f, river_f):
             continue
         if (nm == "contains" and tr) or (nm == "insert" and not tr):
             hit_edges.setdefault(c[1], []).append((b, lab))
-    flag_false, flag_bad = [], []
-    if sd:
-        # the flag: a named bool local switched on (possibly through a copy), whose true edges guard the call
-        def root_local(op):
-            pl = op.get("copy") or op.get("move")
-            if not pl or pl["proj"]:
-                return None
-            l = pl["l"]
-            for _ in range(6):
-                ds = pr.defs.get(l, [])
-                if len(ds) == 1 and ds[0][2] == "rv" and "use" in ds[0][3]:
-                    p2 = ds[0][3]["use"].get("copy") or ds[0][3]["use"].get("move")
-                    if p2 and not p2["proj"]:
-                        l = p2["l"]
-                        continue
-                break
-            return l
-        by_flag = {}
-        for b in sorted(fn.cfg.reachable):
-            t = fn.blocks[b]["term"]
-            if t["k"] == "switch" and t["ty"] == "bool":
-                l = root_local(t["on"])
-                if l is not None and fn.local_name(l) is not None and len(pr.defs.get(l, [])) >= 2:
-                    vals = [v for v, _ in t["arms"]]
-                    for lab, _tgt in fn.cfg.succ_edges[b]:
-                        if I.edge_truth(None, lab, vals):
-                            by_flag.setdefault(l, []).append((b, lab))
-        for fl_, t_edges in sorted(by_flag.items()):
-            if all(I.guarded_by(fn, s_, t_edges) for s_ in sd):
-                for (db, si, k, payload) in pr.defs[fl_]:
-                    v = pr.rvalue(payload) if k == "rv" else None
-                    in_loop = any(db in lp.body for lp in fl)
-                    if v == ("bool", False):
-                        flag_false.append(db)
-                    elif in_loop or v != ("bool", True):
-                        flag_bad.append(db)
-    if sd and hit_edges:
-        for k_, edges in sorted(hit_edges.items()):
-            for (b, lab) in edges:
-                tgt = [t_ for l_, t_ in fn.cfg.succ_edges[b] if l_ == lab][0]
-                r_ = I.reachable_avoiding(fn, [], start=tgt, removed_blocks=flag_false)
-                if any(s_ in r_ for s_ in sd):
-                    ok = False
-                    ctx.violation(rule, f"{fn.path}|collision-not-blocking|hole{k_}",
-                                  f"hole card [{k_}] being already used does not always block the deal: a path from that test "
-                                  f"reaches Showdown::new without clearing the flag that guards it (two players, or a player "
-                                  f"and the turn/river, can hold the same card)", fn=fn.path, file=fn.file, line=fn.blocks[b]["line"],
-                                  construct="used-card test -> Showdown::new")
-                    break
-        if flag_bad:
-            ok = False
-            ctx.violation(rule, f"{fn.path}|flag-reset", "the flag that guards Showdown::new is set to something other than `false` "
-                          "inside the player loop: an earlier collision is forgotten", fn=fn.path, file=fn.file,
-                          line=fn.blocks[flag_bad[0]]["line"], construct="deal-validity flag")
+    ok = used_blocking(ctx, M, fn, pr, rule, hit_edges, fl) and ok
     if ok:
         ctx.ok(rule, {"fn": fn.path, "checked": sorted(map(str, Q)), "recorded": sorted(map(str, Iset)),
                       "blocking": f"each of {sorted(hit_edges)} -> no Showdown::new"}, sample=True)
